@@ -67,6 +67,9 @@ type writeOpts struct {
 	// NoOptionalDefaultRule drops the clause "optional fields are also written whenever they carry a
 	// parsed default" - used only to *characterise* a mismatch (known finding F15), never as the oracle.
 	NoOptionalDefaultRule bool
+	// F43JSConvI16 appends the stray byte the native inlined api.js_conv writes after an i16 value - used only to
+	// *characterise* a mismatch (known finding F43), never as the oracle.
+	F43JSConvI16 bool
 }
 
 type expectErr int
@@ -110,6 +113,9 @@ func expectJ2T(b []byte, v *TVal, o writeOpts) ([]byte, expectErr) {
 			b, e = expectJ2T(b, fv.V, o)
 			if e != expOK {
 				return b, e
+			}
+			if o.F43JSConvI16 && fv.F.JSConv && fv.F.T.Kind == tI16 {
+				b = append(b, byte(fv.V.I))
 			}
 		}
 		if nullTailMarks != nil {
